@@ -54,6 +54,13 @@ for d, _, files in os.walk(hroot):
         name = fn if fn.startswith("zz_verif_") else "zz_verif_" + fn
         rep[os.path.join(REPO, rel, name)] = os.path.join(d, fn)
 
+# 3a. virtual packages of the cooperative scheduler (only compiled into binaries whose instrumented files import them)
+for d, _, files in os.walk(os.path.join(VERIF, "vsched")):
+    for fn in sorted(files):
+        if fn.endswith(".go") and not fn.endswith("_test.go"):
+            rel = os.path.relpath(d, os.path.join(VERIF, "vsched"))
+            rep[os.path.normpath(os.path.join(REPO, "libs/vsched", rel, fn))] = os.path.join(d, fn)
+
 # 3b. generated instrumented copies: every tools/gen_*.py prints a JSON object {repo path: replacement path}
 # (it regenerates the replacement from the CURRENT repo file into .build/gen/)
 import subprocess
